@@ -257,7 +257,9 @@ pub fn c14(run: &Run) -> Vec<String> {
         }
         for x in &iv {
             if let Some(n) = size_at.get(&x.5) {
-                if x.2 >= *n {
+                // (with an EMPTY pool nothing is routed at dispatch time: the job waits in the factory's queue
+                // whatever the router, and is routed after a later growth)
+                if *n > 0 && x.2 >= *n {
                     bad.push(format!("job {} was dispatched when the pool had {n} worker(s) and ran on worker {} (history {:?})", x.5, x.2, run.history));
                 }
             }
